@@ -168,7 +168,7 @@ def family(sess, fam, queries, M=None, extra=()):
             box['viol'] = True
             sess.violated(nm, '%s/%s' % (fam, text.split(' from ')[0][:40]), 'visited entries %r: printed %r, reference %r' % ([NAMES[n] for n in visited], got, want),
                           {'query': text, 'visited': visited}, cli_replay(text, ref, ordered), fam)
-        n, complete = ex.explore(runp, on_path, time_budget=150 if sess.tier == 'quick' else 900)
+        n, complete = ex.explore(runp, on_path, time_budget=300 if sess.tier == 'quick' else 900)
         if not complete:
             sess.inconclusive(nm, 'time budget exceeded after %d paths' % n, fam)
         elif not box.get('viol') and not box.get('bad'):
